@@ -104,4 +104,22 @@ CHECKS = {
             {"pkg": "core", "run": "^TestC06Session$", "quick": 800, "thorough": 40000, "shards_thorough": 8},
         ],
     },
+    "C07": {
+        "level": "exploration",
+        "assumptions": ["invariants are evaluated at quiescent points: the harness awaits the close notification of every session the model says must die (20 s bound)",
+                        "a Close racing a disconnect is produced by two goroutines with a generated head start, not by gate points inside the framework",
+                        "SetID is applied to live sessions only (documented use)"],
+        "runs": [
+            {"pkg": "core", "run": "^TestC07Lifecycle$", "quick": 500, "thorough": 20000, "shards_thorough": 8},
+            {"pkg": "core", "run": "^TestC07HookGate$", "quick": 400, "thorough": 10000, "shards_thorough": 4},
+        ],
+    },
+    "C08": {
+        "level": "exploration",
+        "assumptions": ["every handler counted as 'entered' has signalled entry before Close is invoked; calls issued after Close began are only required to complete exactly once",
+                        "after a connection loss a session cancels its pending calls once its own running handlers finished; completion is therefore awaited after all releases"],
+        "runs": [
+            {"pkg": "core", "run": "^TestC08GracefulClose$", "quick": 1000, "thorough": 40000, "shards_thorough": 8},
+        ],
+    },
 }
